@@ -97,3 +97,17 @@ Theorem C06_refuted_logfmt_empty_value :
   logfmt_parse (lit "a="""" b=1") = [(lit "b", Some (lit "1"))].
 Proof. exact logfmt_empty_value_dropped. Qed.
 Print Assumptions C06_refuted_logfmt_empty_value.
+
+(** KF-33, KF-42 - two more places where the faithful model (a transcription of the logfmt crate 0.0.2) refutes
+    "one field per key=value pair": a quoted value ending in an escaped backslash is not closed by its quote and
+    swallows the rest of the line; an unquoted value containing [=] loses its key, and one ending in [==] vanishes. *)
+Theorem C06_refuted_logfmt_escaped_backslash :
+  logfmt_parse (lit "dir=""C:\\"" user=bob") = [(lit "dir", Some (lit "C:"" user=bob"))].
+Proof. vm_compute. reflexivity. Qed.
+Print Assumptions C06_refuted_logfmt_escaped_backslash.
+Theorem C06_refuted_logfmt_equals_in_value :
+  logfmt_parse (lit "method=GET url=/search?q=rust status=200") =
+    [(lit "method", Some (lit "GET")); (lit "/search?q", Some (lit "rust")); (lit "status", Some (lit "200"))] /\
+  logfmt_parse (lit "tok=YWJj== n=1") = [(lit "n", Some (lit "1"))].
+Proof. vm_compute. split; reflexivity. Qed.
+Print Assumptions C06_refuted_logfmt_equals_in_value.
